@@ -285,3 +285,20 @@ PROPS['C09'] = dict(
         O('C09.suggestion_and_delta', 'harness.c09_wire', 'suggestion_and_delta', 300, 900, 'SuggestDecision with TrialSuggestion + MetadataDelta', env=_SYMFF),
         O('C09.study_config', 'harness.c09_wire', 'study_config_roundtrip', 300, 900, 'oss.StudyConfig incl. algorithm, noise, stopping spec, metadata', env=_SYMFF),
     ])
+
+PROPS['C17'] = dict(
+    level='model_checking',
+    encoded=['oss.StudyConfig.trial_parameters/_pytrial_parameters/_trial_to_external_values', 'ParameterValue.cast/as_*',
+             'SearchSpaceSelector.parse_multi_dimensional_parameter_name', 'TrialConverter.to_proto/from_proto'],
+    bounds='one study config with DOUBLE, INTEGER, DISCRETE (int-valued / float-valued), CATEGORICAL, BOOLEAN, v[0..2] and a '
+           'conditional level (two children under different parent values); parameter values symbolic inside their domains',
+    outside='other search-space shapes; depth > 2; clients.Trial.parameters over a live service (C08)',
+    obligations=[
+        O('C17.flat_values', 'harness.c17_external', 'flat_values', 120, 600,
+          'value read = value stored; bool as True/False, int-valued discrete as int, other discrete/continuous as float, '
+          'categorical as str', env=_SYMFF),
+        O('C17.indexed_values', 'harness.c17_external', 'indexed_values', 120, 600,
+          'name[i] parameters grouped into one list in index order, for every subset of indices and insertion order', env=_SYMFF),
+        O('C17.conditional_values', 'harness.c17_external', 'conditional_values', 120, 600,
+          'only active children presented; unknown or inactive parameters raise ValueError (no silent truncation)', env=_SYMFF),
+    ])
